@@ -1,16 +1,17 @@
 """Regenerate every Gen module from /repo's working tree."""
 import json, sys
-import tr_common, tr_variant, tr_preproc
+import os, tr_common, tr_variant, tr_preproc, tr_prefs
+MCDRIVE = os.path.join(tr_common.VERIF, "build", "target", "debug", "mcdrive")
 
 
 def main():
     report = {}
-    steps = [tr_variant.extract_variant, tr_variant.extract_ucd, tr_preproc.extract_preproc]
+    steps = [tr_variant.extract_variant, tr_variant.extract_ucd, tr_preproc.extract_preproc, lambda r: tr_prefs.extract_prefs(r, MCDRIVE)]
     for s in steps:
         try:
             s(report)
         except tr_common.ExtractionError as e:
-            report.setdefault("errors", []).append(f"{s.__name__}: {e}")
+            report.setdefault("errors", []).append(f"{getattr(s, "__name__", "step")}: {e}")
     print(json.dumps({k: v for k, v in report.items() if k != "modules"}))
     return report
 
